@@ -106,6 +106,18 @@ func printErrors(ec <-chan *diam.ErrorReport) {
 // 	return diam.ListenAndServe(addr, handler, nil)
 // }
 
+// accountLocks holds one mutex per account (subscriber, rating group)
+var accountLocks sync.Map
+
+// lockAccount locks the account and returns the function that unlocks it
+func lockAccount(subscriberId string, ratingGroup uint32) func() {
+	key := subscriberId + "/" + strconv.FormatUint(uint64(ratingGroup), 10)
+	l, _ := accountLocks.LoadOrStore(key, &sync.Mutex{})
+	mu := l.(*sync.Mutex)
+	mu.Lock()
+	return mu.Unlock
+}
+
 // Diameter Credit-Control-Request
 func handleCCR() diam.HandlerFunc {
 	return func(c diam.Conn, m *diam.Message) {
@@ -127,6 +139,11 @@ func handleCCR() diam.HandlerFunc {
 
 		mscc := ccr.MultipleServicesCreditControl
 		rg := mscc.RatingGroup
+
+		// requests for one account may arrive on several connections at once: reading the balance, changing it
+		// and writing it back is one step per account
+		unlock := lockAccount(subscriberId, uint32(rg))
+		defer unlock()
 
 		// Retrieve quota into mongoDB
 		filter := bson.M{"ueId": subscriberId, "ratingGroup": rg}
